@@ -134,6 +134,10 @@ func VerifTrackerHistory() {
 		if cleanup {
 			nops = 4
 		}
+		if cleanup {
+			// time passes between deliveries (bounded, so that a counterexample can be replayed in real time)
+			verifrt.Advance(verifrt.Int("dt", 0, verifrt.Param("DT", 2)))
+		}
 		op := verifrt.Choose("op", nops)
 		var expect []string // expected new emissions: tags, in order
 		extraAllowed := 0    // optional further emissions (records held after a held disposal record)
